@@ -669,7 +669,13 @@ var c07Pool = []string{"$a", "$a = 1", "$a = $b", "$b = [$a, x]", "$a = 2, $b = 
 	"$a = 1, sp($a = 5, [$a, 7]...)", "sp($b = 2, [$b, $b = 3]...), $b", "sp($a, [$a = 9, $a]...)", "sp(rec(1, 2), [rec(3, 4), $a]...)",
 	"$a = $b = 3", "$a = $b = $a = 1, [$a, $b]", "[$a = $b = 2, $a, $b]", "rec($a = $b = 5, $b), $a", "x ? $a = $b = 7 : 0, $b",
 	"nofn(1)", "x(2)", "rec(1)", "[1, nofn(2)]", "x = 1",
-	"$a = [], $a", "$b = [], [$b, $a]", "rec($a = [], $a)", "$a = [[]], $a"}
+	"$a = [], $a", "$b = [], [$b, $a]", "rec($a = [], $a)", "$a = [[]], $a",
+	"$a = x ? 1 : 2, $a", "$a = $b = x ? 3 : 4, [$a, $b]", "$a = 0 ? 1 : 2", "$b = $a ? $a : 7, [$a, $b]", "x ? $a = 5 : 0, [$a, $b]", "$a ? 0 : ($b = 8), $b",
+	c07Wide1, c07Wide2}
+
+// wide array literals: the first element binds a local that elements in every later quarter read
+var c07Wide1 = "[$a = 7" + strings.Repeat(", $a", 47) + "]"
+var c07Wide2 = "[rec($b = 2, $b)" + strings.Repeat(", 1", 15) + ", $b" + strings.Repeat(", 2", 15) + ", $b = 9" + strings.Repeat(", $b", 15) + "]"
 
 func runC07(w *eng.W) {
 	W = w
